@@ -42,6 +42,26 @@ CLAIMED = {
    text="Sufficient discipline for schedule-independence, proved per function: every primitive method under contract has `assigns nothing`, and its frame obligations prove that no execution writes any memory that existed before the call - in particular no field, array or buffer reachable from the shared receiver; all per-call state is freshly allocated. Calls that write nothing shared cannot race or observe each other.",
    note="The step from 'no call writes shared memory' to 'every interleaving returns what the call returns alone' is a standard non-interference argument that is NOT machine-checked; no schedule is explored and this is not race detection. Registries (sync.Map / mutex-guarded maps) and factories are not covered. Library objects (cipher.Block, cipher.AEAD) are trusted to be safe for concurrent use.",
    ref="DESIGN.md section 5 C18"),
+ "C03": dict(
+   text="ECDSA only: proof that verifier.Verify returns nil iff the signature starts with the key's output prefix and the rest is accepted by the standard strict verifier (crypto/ecdsa.VerifyASN1 as an uninterpreted predicate) for the digest of the message (message||0x00 for LEGACY) - for DER directly, for IEEE-P1363 only if the length is exactly the curve's fixed size (64/96/132) with r,s the big-endian halves; that signer.Sign's output is prefix || a signature the same reference predicate accepts; IEEE-P1363 encode/decode sizes and halves; curve/hash enum tables; NewVerifier builds the verifier from the key's parameters and point.",
+   note="crypto/ecdsa (Sign, SignASN1, VerifyASN1), math/big, crypto/elliptic and hash functions are trusted contracts over uninterpreted predicates (ecdsaVerifies, derSig, beNat, ...): 'an independent strict verifier accepts' is reduced to that predicate. ASN1Encode is an assumed contract. Ed25519, RSA-SSA-PKCS1, RSA-SSA-PSS, the signature factories and ASN.1 strictness are NOT covered in this snapshot.",
+   ref="DESIGN.md section 5 C03"),
+ "C05": dict(
+   text="Streaming AEAD key matching only: proof that decryptReader.Read starts every candidate key's decrypting reader on the rewound ciphertext (loop invariant: replay buffer position 0, buffer enabled, no reader chosen yet), keeps the first key whose first Read succeeds, reports errKeyNotFound with no bytes otherwise and on every later call, and writes nothing but the caller's buffer and its own state.",
+   note="tink.StreamingAEAD.NewDecryptingReader and io.Reader.Read are trusted interface contracts (they may consume the replay buffer, nothing else). The prefix-indexed primitive sets of AEAD/DAEAD/MAC/signature/hybrid/JWT/PRF factories, key status filtering and monitoring are NOT covered in this snapshot.",
+   ref="DESIGN.md section 5 C05"),
+ "C06": dict(
+   text="ECIES-AEAD-HKDF (hybrid/subtle): proof that PointEncode produces the SEC 1 fixed-width encodings (uncompressed, legacy uncompressed without the 0x04 byte, compressed with the parity byte) exactly for on-curve points and PointDecode accepts exactly the byte strings of the right length/tag that decode to an on-curve point; ComputeSharedSecret = fixed-width x coordinate of D*P iff the peer point is on the curve; decapsulate/encapsulate derive HKDF(kem || shared secret, salt, info); Decrypt succeeds iff header, KEM, DEM key and DEM decryption all succeed and returns the DEM plaintext; Encrypt outputs kem || DEM ciphertext for a fresh ephemeral key whose DEM ciphertext decrypts to the plaintext under the key the recipient derives (Diffie-Hellman commutativity as an axiom).",
+   note="crypto/elliptic, math/big, crypto/ecdh arithmetic (ecdhX, onCurve, pubX...), HKDF, the DEM helper and the tink.AEAD/DeterministicAEAD interfaces are trusted contracts over uninterpreted functions; getY (point decompression) is an assumed contract. The end-to-end round trip Decrypt(Encrypt(p)) as one lemma, HPKE (RFC 9180 labels, suites, X25519/ML-KEM/X-Wing) and the hybrid factories are NOT covered in this snapshot.",
+   ref="DESIGN.md section 5 C06"),
+ "C07": dict(
+   text="Nonce-based segment layer (streamingaead/subtle/noncebased): proof of the segment nonce format (prefix || 4-byte big-endian counter || last flag, zero padded; failure iff counter >= 2^32-1); representation invariant of Writer (pending bytes never exceed the current segment's limit, first segment shortened by the offset) preserved by every Write for every chunking; Close emits exactly the pending bytes as the last segment under the last-segment nonce and an I/O error of the underlying writer always surfaces from Write/Close; Reader.Read returns bytes only from a successfully decrypted segment, no bytes with any error, and io.EOF after the last segment is consumed; invariant of Reader preserved for every Read size and every short-read behaviour of the source.",
+   note="Segment encrypters/decrypters, io.Writer and io.ReadFull are trusted interface contracts (deterministic functions with ghost logs). The equality of the whole written stream with header||segments of the whole plaintext (an induction over the history of Write calls), the AES-GCM-HKDF / AES-CTR-HMAC segment ciphers, headers and key derivation are NOT covered in this snapshot.",
+   ref="DESIGN.md section 5 C07"),
+ "C17": dict(
+   text="Proof that the PRF-based key deriver's building blocks are the documented functions: the streaming PRF reader yields the RFC 5869 HKDF stream for (hash, key, salt, info=input salt), hash-type names map to the right hash functions, secretdata.Bytes construction copies (no sharing with caller buffers) and NewBytesFromRand draws exactly n fresh random bytes, and NewKeyDeriver accepts exactly the supported parameter combinations.",
+   note="x/crypto/hkdf and io.Reader are trusted ghost-state contracts. The per-key-type derivers (which bytes of the stream become which key field, ID requirements) and the keyset-level deriver are NOT covered in this snapshot.",
+   ref="DESIGN.md section 5 C17"),
  "C10": dict(
    text="Proof (for all inputs, no bound) that every scalar routine of internal/signature/mldsa/algebra.go equals the FIPS 204 algorithm transcribed in specs/fips204.gvc on all of Z_q: reduceOnce, add, sub, neg, mul (Barrett), power2Round, scalePower2, divBy2Gamma2, decompose, highBits, lowBits, makeHint, useHint, centeredAbs, centeredMax. Obligations are generated from the current source on every run.",
    note="Trusted: crypto/subtle.ConstantTime{Select,LessOrEq,Eq} contracts (specs/stdlib.gvc, incl. their documented operand ranges as call-site obligations); the transcription of FIPS 204 Alg. 35-40 in specs/fips204.gvc; gvc and the solvers. Not covered: SHAKE, sampling, NTT as polynomial evaluation, signing/verification control flow (see DESIGN.md section 5-C10 and the evidence file).",
